@@ -50,8 +50,9 @@ def main():
 
     # --- MC: the algorithm itself ---------------------------------------------------------------
     if thorough:
-        mcs = [("2 lines x 4 runes", dict(MaxLines="2", MaxRunes="4", Pres="PresSome", Offsets="{0, 3}")),
-               ("3 lines x 2 runes", dict(MaxLines="3", MaxRunes="2", Pres="PresAll", Offsets="{0, 1, 2, 3}"))]
+        mcs = [("2 lines x 3 runes", dict(MaxLines="2", MaxRunes="3", Pres="PresSome", Offsets="{0, 1, 2, 3}")),
+               ("3 lines x 2 runes", dict(MaxLines="3", MaxRunes="2", Pres="PresSome", Offsets="{0, 3}")),
+               ("1 line x 4 runes", dict(MaxLines="1", MaxRunes="4", Pres="PresAll", Offsets="{0, 1, 2, 3}"))]
     else:
         mcs = [("2 lines x 2 runes", dict())]
     for name, sub in mcs:
